@@ -65,8 +65,11 @@ enum Fmt {
     CDetailed,
     CWithThread,
     Json,
+    /// a user-written format function that prints the message and nothing else (its output is
+    /// empty for an empty message: the record is then exactly one line ending)
+    MessageOnly,
 }
-const FMTS: [Fmt; 9] = [Fmt::Default, Fmt::Opt, Fmt::Detailed, Fmt::WithThread, Fmt::CDefault, Fmt::COpt, Fmt::CDetailed, Fmt::CWithThread, Fmt::Json];
+const FMTS: [Fmt; 10] = [Fmt::Default, Fmt::Opt, Fmt::Detailed, Fmt::WithThread, Fmt::CDefault, Fmt::COpt, Fmt::CDetailed, Fmt::CWithThread, Fmt::Json, Fmt::MessageOnly];
 impl Fmt {
     fn function(self) -> FormatFunction {
         match self {
@@ -79,6 +82,7 @@ impl Fmt {
             Self::CDetailed => flexi_logger::colored_detailed_format,
             Self::CWithThread => flexi_logger::colored_with_thread,
             Self::Json => flexi_logger::json_format,
+            Self::MessageOnly => crate::lg::payload_format,
         }
     }
     fn plain(self) -> Self {
@@ -369,6 +373,16 @@ fn framing_and_fidelity(fmt: Fmt, crlf: bool, mode: ModeK) -> Result<(u64, u64),
             };
             let module = r.module.unwrap_or("<unnamed>");
             let fileline = format!("{}:{}", r.file.unwrap_or("<unnamed>"), r.line.unwrap_or(0));
+            if fmt == Fmt::MessageOnly {
+                if !head.is_empty() {
+                    return Err(Fail {
+                        clause: format!("fidelity:{:?}", fmt),
+                        cause: format!("{}/{fields}", msg_class(&r.msg)),
+                        detail: format!("record {r:?}: the format function prints the message only, the line is {have:?}"),
+                    });
+                }
+                continue;
+            }
             let mut needed: Vec<String> = vec![r.level.to_string()];
             match fmt.plain() {
                 Fmt::Default => needed.push(module.to_string()),
